@@ -233,6 +233,8 @@ async fn futures_join_all<F: std::future::Future>(futs: Vec<F>) -> Vec<F::Output
 }
 
 /// replay the observed (command, kind before, kind after) sequence of every actor through the Lean step function
+/// (state kind before, command) pairs of the real actors that have been replayed through the Lean step function in this run
+static COVER: Mutex<std::collections::BTreeSet<String>> = Mutex::new(std::collections::BTreeSet::new());
 fn correspond(m: &mut model::Model, o: &Outcome, fail: Option<&str>, disagreements: &mut Vec<serde_json::Value>, steps: &mut u64) {
     let re_num = |s: &str, key: &str| -> Option<usize> { regex::Regex::new(&format!(r"{key}: (\d+)")).unwrap().captures(s).and_then(|c| c[1].parse().ok()) };
     let prog_id = |s: &str| -> (usize, bool) { if s.contains("a + true") { (99, false) } else if s.contains("// lhs    + b") { (5, true) } else if s.contains("// lhs") { (6, true) } else if s.contains("a + a }") || s.contains("a + b + b }") { (7, true) } else if s.contains("a ^ b") { (2, true) } else if s.contains("PARTY_0::K") { (3, true) } else if s.contains("a + b + c") { (4, true) } else { (1, true) } };
@@ -243,6 +245,7 @@ fn correspond(m: &mut model::Model, o: &Outcome, fail: Option<&str>, disagreemen
             if cmd == "InitChannel" { inits += 1; continue; }          // reported from inside `init_channel`, i.e. before the event of the command that caused it
             *steps += 1;
             let name = cmd.split(['(', ' ']).next().unwrap_or("");
+            COVER.lock().unwrap().insert(format!("{before}/{name}{}", if before == after && name != "MpcMsg" { " (state kept)" } else { "" }));
             let mut lines: Vec<String> = vec![];
             match name {
                 "Schedule" => { let (party, leader) = (re_num(cmd, "party").unwrap_or(0), re_num(cmd, "leader").unwrap_or(0)); let n = cmd.matches("http://h").count(); let (pid, wt) = prog_id(cmd);
@@ -320,7 +323,7 @@ async fn main() {
                     *LATE.lock().unwrap() = Some(fol); let mut phase = 0;
                     let o = scenario(n, leader, &outs, false, &vec![p2; n], &vec![leader; n], 1, &mut r, None, move |step, idle| {
                         if phase == 0 && step >= n - 1 && idle >= 2 { phase = 1; Some(stray2.clone()) } else if phase == 1 && idle >= 2 { phase = 2; Some(Inject::LateSchedule(fol)) } else { None } }).await; execs += 1;
-                    *LATE.lock().unwrap() = None; *LATE_POLICY.lock().unwrap() = None;
+                    *LATE.lock().unwrap() = None; *LATE_POLICY.lock().unwrap() = None; correspond(&mut m, &o, None, &mut disagreements, &mut steps);
                     *dist.entry(format!("inject:{}-before-late-schedule", format!("{stray:?}").split('(').next().unwrap())).or_default() += 1; distinct.insert(format!("late {stray:?} {leader} {n}"));
 
                     let want = expected_prog(n, p2); let mut bad = vec![]; let reply = o.log.iter().skip_while(|l| !l.starts_with("inject@")).nth(1).cloned().unwrap_or_default();
@@ -498,5 +501,6 @@ async fn main() {
             _ => { eprintln!("unknown property"); std::process::exit(2); }
         }
     }
+    { let c = COVER.lock().unwrap(); dist.insert(format!("transitions_replayed_through_model:{}", c.len()), c.len() as u64); if samples.len() < 6 { samples.push(json!({"transition_coverage (state/command)": c.iter().cloned().collect::<Vec<_>>()})); } }
     println!("{}", serde_json::to_string_pretty(&json!({"executions": execs, "distinct_nontrivial": distinct.len(), "distribution": dist, "samples": samples, "model_steps_compared": steps, "model_disagreements": disagreements, "impl_vs_oracle_failures": failures})).unwrap());
 }
